@@ -534,6 +534,49 @@ func init() {
 				}
 			})
 			if lk == nil {
+				// the check may live in a helper extracted from evalTemplate: a direct callee that receives the component
+				// data, looks the names up in it and returns an error — the call then plays the role of the check
+				for _, site := range callsIn(fn) {
+					callee := site.Common().StaticCallee()
+					if callee == nil || !inModule(callee) || callee == fn {
+						continue
+					}
+					for ai, a := range site.Common().Args {
+						if a != data || ai >= len(callee.Params) {
+							continue
+						}
+						var hl *ssa.Lookup
+						eachInstr(callee, func(in ssa.Instruction) {
+							if l, ok := in.(*ssa.Lookup); ok && l.X == callee.Params[ai] && l.CommaOk {
+								hl = l
+							}
+						})
+						if hl == nil {
+							continue
+						}
+						missingErr := false
+						for _, r := range returnsOf(callee) {
+							last := r.Results[len(r.Results)-1]
+							if isErrorType(last.Type()) && !isNilConst(last) {
+								missingErr = true
+							}
+						}
+						propagated, _ := errorPropagated(site)
+						c.check(missingErr && propagated, "evalTemplate: missing → error", p.instrPos(site), "helper "+shortName(callee)+" reports a missing name and its error is returned", "the required-names helper "+shortName(callee)+" does not report an error, or evalTemplate drops it")
+						n := 0
+						for _, s2 := range callsIn(fn) {
+							if calleeName(s2.Common()) != "(*vuego.Vue).evaluateChildren" {
+								continue
+							}
+							n++
+							c.check(dominates(site, s2), fmt.Sprintf("evalTemplate: required check before evaluateChildren#%d", n), p.instrPos(s2), "the check call dominates the evaluation", "the template's children can be evaluated on a path that skips the :required check")
+						}
+						c.ok("evalTemplate: required names looked up in the component data", p.instrPos(hl), "in helper "+shortName(callee))
+						return
+					}
+				}
+			}
+			if lk == nil {
 				c.fail("evalTemplate: required lookup", p.pos(fn.Pos()), "no presence test of the required names in the component data: a missing :required variable is not detected")
 				return
 			}
@@ -582,7 +625,7 @@ func init() {
 			eachInstr(fn, func(in ssa.Instruction) {
 				if b, ok := in.(*ssa.BinOp); ok && b.Op == token.EQL {
 					if s, ok := constString(b.Y); ok && (s == ":require" || s == ":required") {
-						if f := loadedField(b.X); f != nil && f.Name() == "Key" && loopHeaderOf(b.Block()) != nil {
+						if f := loadedField(b.X); f != nil && fieldIs(f, "Key") && loopHeaderOf(b.Block()) != nil {
 							inLoop[s] = true
 						}
 					}
@@ -753,7 +796,7 @@ func init() {
 					return
 				}
 				fv := fieldVar(st.Addr)
-				if fv == nil || fv.Name() != "SlotScope" {
+				if fv == nil || !fieldIs(fv, "SlotScope") {
 					return
 				}
 				found = true
@@ -770,7 +813,7 @@ func init() {
 						if isNilConst(b.X) {
 							other = b.Y
 						}
-						if f := loadedField(other); f != nil && f.Name() == "SlotScope" {
+						if f := loadedField(other); f != nil && fieldIs(f, "SlotScope") {
 							cond = "only when no slot scope was inherited"
 						}
 					}
@@ -927,8 +970,8 @@ func loopDirection(fn *ssa.Function) int {
 		}
 		start, step := 0, 0
 		for _, e := range ph.Edges {
-			if i, ok := constInt(e); ok && i == 0 {
-				start = +1
+			if i, ok := constInt(e); ok && (i == 0 || i == -1) {
+				start = +1 // an index loop from 0, or a range loop (index phi starts at -1 and is incremented first)
 			}
 			if bo, ok := e.(*ssa.BinOp); ok {
 				if bo.Op == token.SUB && isCallNamed(bo.X, "builtin.len") != nil {
@@ -1030,7 +1073,7 @@ func init() {
 					return
 				}
 				fv := fieldVar(st.Addr)
-				if fv == nil || fv.Name() != "TemplateNode" || isNilConst(st.Val) {
+				if fv == nil || !fieldIs(fv, "TemplateNode") || isNilConst(st.Val) {
 					return
 				}
 				n++
@@ -1065,13 +1108,10 @@ func init() {
 		Run: func(p *Prog, c *Ctx) {
 			fn := p.MustFn("(*vuego.Vue).evalSlot")
 			fresh := func(v ssa.Value) (bool, string) {
-				for _, o := range p.origins(v, OriginOpts{}) {
-					mk, ok := o.(*ssa.MakeMap)
-					if !ok {
+				// made in this evaluation of the slot: in evalSlot itself or in a helper it calls (descended into)
+				for _, o := range p.origins(v, OriginOpts{Depth: 2}) {
+					if _, ok := o.(*ssa.MakeMap); !ok {
 						return false, describeValue(o)
-					}
-					if mk.Parent() != fn {
-						return false, "a map made elsewhere"
 					}
 				}
 				return true, ""
@@ -1187,12 +1227,12 @@ func init() {
 				eachInstr(fn, func(in ssa.Instruction) {
 					if st, ok := in.(*ssa.Store); ok {
 						if fv := fieldVar(st.Addr); fv != nil && fv.Pkg() != nil && fv.Pkg().Path() == "golang.org/x/net/html" {
-							if fv.Name() == "Key" {
+							if fieldIs(fv, "Key") {
 								if s, ok := constString(st.Val); ok && s == "include" {
 									keyOK = true
 								}
 							}
-							if fv.Name() == "Val" && st.Val == file {
+							if fieldIs(fv, "Val") && st.Val == file {
 								valOK = true
 							}
 						}
@@ -1205,7 +1245,7 @@ func init() {
 			okLookup := false
 			for _, site := range callsIn(pc) {
 				if calleeName(site.Common()) == "(*vuego.Vue).GetComponentFile" {
-					if f := loadedField(site.Common().Args[1]); f != nil && f.Name() == "Data" {
+					if f := loadedField(site.Common().Args[1]); f != nil && fieldIs(f, "Data") {
 						okLookup = true
 					}
 				}
